@@ -130,3 +130,88 @@ Proof.
   destruct ta as [[c1 m1]|], tb as [[c2 m2]|];
   destruct oa as [|[|p|p] [|x1 [|y1 t1]]]; destruct ob as [|[|q|q] [|x2 [|y2 t2]]]; reflexivity.
 Qed.
+
+(* ---------------- CPU normalization (round 5) ----------------
+   plugins/util PrepareNodeForResource amplifies batch-cpu by the cpu-normalization ratio of the NodeResource
+   annotation (a "%.2f" decimal h/100; only a ratio > 1 counts): MultiplyMilliQuant on the item quantity,
+   then Quantity.Value() (rounds up).  Prepare runs several times per reconcile on the SAME NodeResource
+   (need-sync check, updateNodeStatus, updateNodeMeta, once more per conflict retry), so it must be
+   idempotent: the observable carries the amounts published by a second Prepare as two trailing integers. *)
+Definition norm_ratio (kind h : Z) : option fl :=
+  if (kind =? 1) && (100 <? h) then Some (rne h 100) else None.
+Definition amp (r : option fl) (c : Z) : Z :=
+  match r with Some f => - ((- mul_ratio (1000 * c) f) / 1000) | None => c end.
+Definition pub_opt (tp : option Z) (x : Z) : Z := match tp with Some t => publish t x | None => x end.
+Definition pub_cpu (r : option fl) (tp : tpalloc) (c : Z) : Z := pub_opt (option_map fst tp) (amp r c).
+Definition pub_mem (tp : tpalloc) (m : Z) : Z := pub_opt (option_map snd tp) m.
+
+(* model observable of Calculate + Prepare (core) and of a second Prepare (extra) *)
+Definition pub_core (r : option fl) (tp : tpalloc) (obs : list Z) : list Z :=
+  match obs with
+  | 0 :: _ :: _ :: c :: m :: t => 0 :: pub_cpu r tp c :: pub_mem tp m :: c :: m :: t
+  | _ => obs
+  end.
+Definition pub_extra (r : option fl) (tp : tpalloc) (obs : list Z) : list Z :=
+  match obs with
+  | 0 :: _ :: _ :: c :: m :: _ => [pub_cpu r tp c; pub_mem tp m]
+  | _ => []
+  end.
+
+(* clause 8: whatever is published — by the first or by a repeated Prepare — never exceeds the calculated
+   item amount, amplified ONCE by the ratio and reduced by the third-party allocation (recomputed here from
+   the judged item amounts, the ratio and the allocation of the input) *)
+Definition norm_code (r : option fl) (tp : tpalloc) (core extra : list Z) : Z :=
+  match core with
+  | 0 :: pc :: pm :: c :: m :: _ =>
+      match extra with
+      | [pc2; pm2] =>
+          if (pc <=? pub_cpu r tp c) && (pc2 <=? pub_cpu r tp c)
+             && (pm <=? pub_mem tp m) && (pm2 <=? pub_mem tp m) then 0 else 8
+      | _ => 9
+      end
+  | _ => 0
+  end.
+(* under a ratio the first published cpu amount is judged by clause 8, not by the un-normalized bound *)
+Definition mask_pub (r : option fl) (core : list Z) : list Z :=
+  match r, core with
+  | Some _, 0 :: _ :: t => 0 :: -1 :: t
+  | _, _ => core
+  end.
+
+Theorem pub_norm_code r tp b :
+  norm_code r tp (pub_core r tp (run_batch b)) (pub_extra r tp (run_batch b)) = 0.
+Proof.
+  unfold run_batch. destruct (is_degraded _ _); [reflexivity|].
+  cbn [app pub_core pub_extra norm_code]. rewrite !Z.leb_refl. reflexivity.
+Qed.
+
+(* the core (published cpu masked under a ratio) still satisfies every bound of C09 *)
+Theorem pub_core_holds r tp b :
+  input_wf b = true -> tp_nonneg tp = true ->
+  C09_holds b (mask_pub r (pub_core r tp (run_batch b))).
+Proof.
+  intros Hwf Htp. pose proof (run_batch_holds b Hwf) as H.
+  unfold C09_holds, batch_spec in *. unfold run_batch in *. fold (stale b) in *.
+  destruct (stale b) eqn:Es.
+  { left. destruct r; reflexivity. }
+  destruct H as [H|H]; [discriminate|].
+  destruct H as (pc & pm & c & m & nz & zobs & Heq & Hst & Hc & Hm & Hpc & Hpm & Hz).
+  cbn [app] in Heq. injection Heq as E1 E2 E3 E4 E5 E6. subst pc pm c m nz zobs.
+  assert (Hmem : pub_spec false (node_mem b) (pub_mem tp (batch_dim (node_mem b)))).
+  { destruct tp as [[tc tm]|]; cbn [pub_mem pub_opt option_map snd]; [|exact Hpm].
+    cbn [tp_nonneg] in Htp. apply andb_true_iff in Htp. destruct Htp as [_ Htm]. apply Z.leb_le in Htm.
+    right. eapply dim_spec_down; [exact Hm|apply publish_range; [exact Htm|eapply dim_spec_nonneg, Hm]]. }
+  right. cbn [app pub_core].
+  destruct r as [f|]; cbn [mask_pub].
+  - eexists _, _, _, _, _, _. split; [reflexivity|]. split; [reflexivity|]. split; [exact Hc|]. split; [exact Hm|].
+    split; [left; reflexivity|]. split; [exact Hmem|]. exact Hz.
+  - eexists _, _, _, _, _, _. split; [reflexivity|]. split; [reflexivity|]. split; [exact Hc|]. split; [exact Hm|].
+    split; [|split; [exact Hmem|exact Hz]].
+    unfold pub_cpu, amp. destruct tp as [[tc tm]|]; cbn [pub_opt option_map fst]; [|exact Hpc].
+    cbn [tp_nonneg] in Htp. apply andb_true_iff in Htp. destruct Htp as [Htc _]. apply Z.leb_le in Htc.
+    right. eapply dim_spec_down; [exact Hc|apply publish_range; [exact Htc|eapply dim_spec_nonneg, Hc]].
+Qed.
+Corollary pub_core_code r tp b :
+  input_wf b = true -> tp_nonneg tp = true ->
+  batch_code false b (mask_pub r (pub_core r tp (run_batch b))) = 0.
+Proof. intros H1 H2. apply batch_code_spec, pub_core_holds; assumption. Qed.
